@@ -161,15 +161,19 @@ def audit(prop, extra_modules=()):
 # running the two sides
 
 def _run_chunk(binpath, lines, timeout):
-    """run one process over lines; handle aborts/timeouts by marking the culprit and resuming."""
+    """run one process over lines; an abort or hang marks the culprit case (`abort` / `timeout`) and resumes
+    after it. First attempt is block-buffered; after a failure the remainder is re-run with VH_FLUSH=1 (one
+    flush per case) so the number of completed lines identifies the culprit."""
     outs = []
-    start = 0
     hooks = {}
-    while start < len(lines):
-        chunk = lines[start:]
+    flush = False
+    while len(outs) < len(lines):
+        chunk = lines[len(outs):]
+        to = timeout if not flush else max(20, min(timeout, 90))
+        culprit = None
         try:
             p = subprocess.run([binpath], input='\n'.join(chunk) + '\n', capture_output=True, text=True,
-                               timeout=timeout, env=dict(ENV, VH_FLUSH='1' if start else '0'))
+                               timeout=to, env=dict(ENV, VH_FLUSH='1' if flush else '0'))
             got = p.stdout.split('\n')
             if got and got[-1] == '':
                 got.pop()
@@ -180,34 +184,21 @@ def _run_chunk(binpath, lines, timeout):
             if len(got) >= len(chunk):
                 outs.extend(got[:len(chunk)])
                 break
-            # process died: the case after the last complete line is the culprit
-            outs.extend(got)
-            outs.append('abort')
-            start = len(outs)
+            culprit = 'abort'      # process died before finishing
         except subprocess.TimeoutExpired as e:
             so = e.stdout or b''
             if isinstance(so, bytes):
                 so = so.decode(errors='replace')
-            got = so.split('\n')
-            got = got[:-1]  # last one may be partial
-            if not start and len(got) < len(chunk):
-                # output was block-buffered: re-run the tail one by one with a short timeout
-                outs.extend(got)
-                k = len(outs)
-                while k < len(lines):
-                    try:
-                        q = subprocess.run([binpath], input=lines[k] + '\n', capture_output=True, text=True,
-                                           timeout=max(5, timeout / 20), env=ENV)
-                        o = q.stdout.split('\n')
-                        outs.append(o[0] if o and o[0] != '' else 'abort')
-                    except subprocess.TimeoutExpired:
-                        outs.append('timeout')
-                    k += 1
-                break
-            outs.extend(got)
-            outs.append('timeout')
-            start = len(outs)
-    return outs, hooks
+            got = so.split('\n')[:-1]   # the last piece may be partial
+            culprit = 'timeout'
+        if not flush:
+            # output was block-buffered: what we got is a lower bound only; re-run the rest flushing per case
+            outs.extend(got[:max(0, len(got) - 1)])
+            flush = True
+            continue
+        outs.extend(got)
+        outs.append(culprit)
+    return outs[:len(lines)], hooks
 
 
 def run_parallel(binpath, lines, timeout=600, jobs=None):
